@@ -750,6 +750,11 @@ impl Module for StakeKeeper {
                 amount,
             } => {
                 // see https://github.com/cosmos/cosmos-sdk/blob/v0.46.1/x/staking/keeper/msg_server.go#L316-L322
+                // and https://github.com/cosmos/cosmos-sdk/blob/v0.46.1/x/staking/types/errors.go#L30 (self redelegation)
+                ensure!(
+                    src_validator != dst_validator,
+                    anyhow!("cannot redelegate to the same validator")
+                );
                 let events = vec![Event::new("redelegate")
                     .add_attribute("source_validator", &src_validator)
                     .add_attribute("destination_validator", &dst_validator)
